@@ -51,7 +51,7 @@ func (c04) Describe() sim.Description {
 		RealCode:    []string{"internal/wasm store.go resolveImports / applyData / applyElements / global initialisation", "both engines' imported function/memory/global indirection", "experimental.MemoryAllocator seam", "api.Memory / api.Global host API"},
 		Stubs:       []string{"class graph-moving-allocator: the memory allocator is the harness's (mmap regions, always-move, PROT_NONE old regions, injected allocation failure)"},
 		Assumptions: []string{"generated graphs are valid by construction (a mutable imported global in a constant expression would be an invalid module; not generated)", "table import minimum is compared with the current size only where wazero and the specification agree (import min <= declared min or > current size)"},
-		FaultKinds:  []string{"incompatible_import", "missing_export", "out_of_bounds_segment", "trapping_start", "allocator_failure", "allocator_moves_buffer"},
+		FaultKinds:  []string{"incompatible_import", "missing_export", "out_of_bounds_segment", "trapping_start", "allocator_failure", "allocator_moves_buffer", "close_leaf_instance", "forced_gc_after_close"},
 	}
 }
 
